@@ -19,17 +19,18 @@ import (
 
 // Job is one compilation request (mirrors vJob of the driver).
 type Job struct {
-	ID     int    `json:"id"`
-	Src    string `json:"src"`
-	Mask   int    `json:"mask"`
-	Ev     bool   `json:"ev"`
-	Dir    bool   `json:"dir"`
-	Costs  string `json:"costs"`
-	Undef  bool   `json:"undef"`
-	Redump bool   `json:"redump"`
-	FPOnly bool   `json:"fponly"`
-	Run    bool   `json:"run"`
-	Gen    string `json:"gen"`
+	ID      int      `json:"id"`
+	Src     string   `json:"src"`
+	Mask    int      `json:"mask"`
+	Ev      bool     `json:"ev"`
+	Dir     bool     `json:"dir"`
+	Costs   string   `json:"costs"`
+	Undef   bool     `json:"undef"`
+	Redump  bool     `json:"redump"`
+	FPOnly  bool     `json:"fponly"`
+	Run     bool     `json:"run"`
+	Gen     string   `json:"gen"`
+	Samples []Sample `json:"samples,omitempty"`
 }
 
 type XLoopEv struct {
@@ -74,6 +75,7 @@ type XProg struct {
 	WF       []string       `json:"wf"`
 	Re       *XProg         `json:"re"`
 	RunRes   string         `json:"runres"`
+	Samples  []SampleRes    `json:"samples"`
 	Done     int            `json:"done"`
 }
 
